@@ -372,6 +372,27 @@ func runC16(c *Ctx) {
 	c.rule("R-REST", 1, "Rest returns the very reader Next reads from")
 	c.rule("R-YIELD", 1, "Scanner.Each stops calling f once it returned false")
 	c.rule("R-POOL-RESET", 1, "pooled scanner is Reset before use, Put back on exit, never escapes")
+	c.rule("R-RESULT-FRESH", 1, "the slice of tokens Scanner.Split returns is allocated by that call: it is not kept in (or taken from) the scanner, which is pooled and reused")
+	if sp := P.Func("shell", "Scanner", "Split"); sp != nil {
+		c.sawFn(fnName(sp))
+		o := resultOrigin(sp, 0)
+		kept := ""
+		allInstrs(sp, func(in ssa.Instruction) {
+			if st, ok := in.(*ssa.Store); ok {
+				if fa, ok := st.Addr.(*ssa.FieldAddr); ok {
+					if _, isSlice := st.Val.Type().Underlying().(*types.Slice); isSlice {
+						if el, ok := st.Val.Type().Underlying().(*types.Slice).Elem().Underlying().(*types.Basic); ok && el.Kind() == types.String {
+							_, f := fieldVarOf(fa)
+							kept = "." + f.Name()
+						}
+					}
+				}
+			}
+		})
+		c.judge(o.onlyFresh() && kept == "", "R-RESULT-FRESH", "shell.(*Scanner).Split:tokens", sp.Pos(), "origin Fresh, not stored in the scanner", fmt.Sprintf("the returned token slice is not private to the call (origin %s; kept in the scanner: %q): the pooled scanner's next Split overwrites the tokens an earlier caller still holds", o, kept))
+	} else {
+		c.undecided("ANCHOR", "shell.(*Scanner).Split", 0, "not found")
+	}
 	c.rule("R-SPLIT-VIA-SCANNER", 1, "every result of shell.Split is produced by the pooled Scanner (no path bypasses the table)")
 	c.assume("bufio.Reader.ReadByte hides read fragmentation (standard library contract)")
 	c.assume("the reference transducer (printed in evidence) is the intended POSIX word-splitting semantics for blanks, newlines, backslash, single and double quotes; $ and ` are ordinary bytes here")
